@@ -308,6 +308,8 @@ template<class T> static void run_kern3_T(bool isfloat) {
       kern_line<T>(isfloat ? "norm9f" : "norm9d", 3, ops, 1, [](T* const* p) { sink_val(Fastor::_norm<T, 9>(p[0])); });
       kern_line<T>(isfloat ? "trace33f" : "trace33d", 3, ops, 1, [](T* const* p) { sink_val(Fastor::_trace<T, 3, 3>(p[0])); });
       kern_line<T>("det33", 3, ops, 1, [](T* const* p) { sink_val(Fastor::_det<T, 3, 3>(p[0])); }); }
+    { KOp d[] = {{3, false, 0}, {3, false, 0}, {9, true, 0}};
+      kern_line<T>(isfloat ? "dyadic33f" : "dyadic33d", 3, d, 3, [](T* const* p) { Fastor::_dyadic<T, 3, 3>(p[0], p[1], p[2]); }); }
     { KOp ops[] = {{9, false, 0}, {9, false, 0}};
       kern_line<T>(isfloat ? "dc33f" : "dc33d", 3, ops, 2, [](T* const* p) { sink_val(Fastor::_doublecontract<T, 3, 3>(p[0], p[1])); }); }
 #endif
@@ -332,5 +334,7 @@ static void run_kern3() {
 #endif
 #ifdef FASTOR_AVX_IMPL
     run_kern3_T<double>(false);
+    { KOp d2[] = {{2, false, 0}, {2, false, 0}, {4, true, 0}};
+      kern_line<float>("dyadic22f", 2, d2, 3, [](float* const* p) { Fastor::_dyadic<float, 2, 2>(p[0], p[1], p[2]); }); }
 #endif
 }
